@@ -22,12 +22,15 @@ THEOREMS = [_P + n for n in [
     "GDictV.run_keys", "cleanHistory_of_B",
     # tick window
     "window_last_n", "window_evicted", "GWin.run_w",
+    # fixed TSL / TSB (ceiling)
+    "fixed_cycle_coherent", "fixed_cycle_aux", "fixed_wf_reachable",
 ]]
 CXX_TARGETS = ["hgv_slots"]
-RULE = ("mutation histories over real standalone TSOutput objects of TSS<Int>, TSD<Int,TS<Int>> and tick TSW<Int> with an "
-        "explicit evaluation time per op; a case is non-trivial when one cycle mutates the same key at least twice "
-        "(cancel / remove+re-insert), or a slot is reused after a physical erase, or the slot capacity grows, or a "
-        "window evicts; distinct by sha1 of the op list")
+RULE = ("mutation histories over real standalone TSOutput objects of TSS<Int>, TSD<Int,TS<Int>>, tick TSW<Int> and fixed "
+        "TSL<TS<Int>,n> with an explicit evaluation time per op; a case is non-trivial when one cycle mutates the same "
+        "key at least twice (cancel / remove+re-insert), or a slot is reused after a physical erase, or the slot "
+        "capacity grows past 8/16/32, or a window evicts, or a list cycle leaves some children unmodified; distinct by "
+        "sha1 of the op list")
 TRUSTED = ["ankerl::unordered_dense key index modelled as first constructed slot holding the key",
            "sul::dynamic_bitset delta bits modelled per slot (sizes are kept equal to the capacity by ensure_delta_capacity)",
            "type-erased Value copy/equality/hash of Int keys and values"]
@@ -223,6 +226,31 @@ def gen_tsw(rng, idx, maxops):
     return Case(lines, {"period": period, "min": minp})
 
 
+def gen_tsl(rng, idx, maxops):
+    n = rng.choice([1, 2, 3, 4, 8])
+    lines = ["case %d" % idx, "tsl %d" % n]
+    clk = _Clock(rng)
+    if rng.random() < 0.3:
+        lines.append("dump %d" % clk.t)
+    for _ in range(rng.randint(3, maxops)):
+        r = rng.random()
+        if r < 0.86:
+            lines.append("lset %d %d %d" % (clk.t, rng.randrange(n), rng.randint(-5, 20)))
+        elif r < 0.90:
+            lines.append("lset %d %d 1" % (clk.t, n + rng.randint(0, 2)))     # index out of range
+        elif r < 0.93:
+            lines.append("lset 0 %d 1" % rng.randrange(n))                     # MIN_DT
+        else:
+            lines.append("dump %d" % (clk.t + 1))
+        if rng.random() < 0.3:
+            lines.append("dump %d" % clk.t)
+        if rng.random() < 0.35:
+            lines.append("dump %d" % clk.t)
+            clk.tick()
+    lines.append("dump %d" % clk.t)
+    return Case(lines, {"size": n})
+
+
 def exhaustive_tss(n_ops, start):
     """every sequence of `n_ops` symbols over {add k, rem k | k<3} + {tick}: all cancel patterns"""
     syms = [("add", k) for k in range(3)] + [("rem", k) for k in range(3)] + [("tick", 0)]
@@ -286,6 +314,7 @@ def streams(rng, tier, seed):
     corpus = _corpus()
     tss = [gen_tss(rng, i, mo) for i in range(n)]
     tsw = [gen_tsw(rng, i, 30 if quick else 60) for i in range(n // 2)]
+    tsl = [gen_tsl(rng, i, 25 if quick else 50) for i in range(n // 3)]
     tsd = [gen_tsd(rng, i, mo, "clean") for i in range(n)]
     rewrite = [gen_tsd(rng, 2 * i, 14 if quick else 30, "rewrite") for i in range(30 if quick else 400)]
     late = [gen_tsd(rng, 2 * i + 1, 14 if quick else 30, "late") for i in range(30 if quick else 400)]
@@ -298,6 +327,7 @@ def streams(rng, tier, seed):
     return [
         Stream("tss", impl, model, corpus.get("tss", []) + tss),
         Stream("tsw", impl, model, corpus.get("tsw", []) + tsw),
+        Stream("tsl", impl, model, corpus.get("tsl", []) + tsl),
         Stream("tsd", impl, model, corpus.get("tsd", []) + tsd),
         # histories that hit the two defects found in TSDSlotStorage (see LEVEL_NOTE), alternating; kept apart so
         # that the streams above stay a clean oracle for everything else
@@ -779,10 +809,96 @@ def _mon_tsw(case, out):
     return res
 
 
+def _mon_tsl(case, out):
+    """fixed TSL<TS<Int>, n>: value' = value with this tick's modified children replaced"""
+    res = _Res()
+    n = 0
+    vals, prev = {}, {}     # index -> value (children that have a value)
+    written = {}            # index -> value, this cycle
+    cur_t = 0
+    for ln, o in zip(case.lines, out + ["<none>"] * len(case.lines)):
+        w = ln.split()
+        op = w[0]
+        if op == "case":
+            continue
+        if op == "tsl":
+            n = int(w[1]); res.feats.add("size=%d" % n)
+            continue
+        if op == "lset":
+            t, i = int(w[1]), int(w[2])
+            if i >= n:
+                res.feats.add("index-out-of-range")
+                if o != "err:range":
+                    res.bad.append("write to child %d of %d returned %r" % (i, n, o))
+                continue
+            if t == 0:
+                res.feats.add("min-dt-refused")
+                if o != "err:invalid-arg":
+                    res.bad.append("child write at MIN_DT returned %r" % o)
+                continue
+            if t < cur_t:
+                res.feats.add("time-decrease(out-of-hypothesis)")
+                return res
+            if t > cur_t:
+                prev = dict(vals); written = {}; cur_t = t
+                res.feats.add("cycle-boundary")
+            if i in written:
+                res.feats.add("same-child-twice-in-cycle"); res.nontrivial = True
+            vals[i] = written[i] = int(w[3])
+            if o != "ok":
+                res.bad.append("%s returned %r" % (ln, o))
+            continue
+        if op == "dump":
+            t = int(w[1])
+            try:
+                f = _fields(o)
+                v, m = _items(f["v"]), _items(f["m"])
+                vv = _ints(f["vv"])
+                d = None if f["d"] == "none" else _items(f["d"])
+                lmt, mod, valid, allvalid = int(f["lmt"]), f["mod"] == "1", f["valid"] == "1", f["allvalid"] == "1"
+            except Exception as e:      # noqa
+                if o.startswith("err:"):
+                    res.bad.append("reading the output at t=%d threw (%s): value / delta not readable" % (t, o))
+                else:
+                    res.bad.append("unreadable dump %r (%s)" % (o, e))
+                return res
+            if t < cur_t:
+                continue
+            if v != vals or len(vv) != n or any(vv[i] != x for i, x in vals.items()):
+                res.bad.append("tsl t=%d: children %s (all %s) but the write history says %s" % (t, v, vv, vals))
+            if valid != (cur_t != 0) or allvalid != (cur_t != 0 and len(vals) == n) or lmt != cur_t:
+                res.bad.append("tsl t=%d: valid=%d all_valid=%d lmt=%d with %d of %d children written, last write at %d"
+                               % (t, valid, allvalid, lmt, len(vals), n, cur_t))
+            if t == cur_t and cur_t != 0:
+                if not mod:
+                    res.bad.append("tsl t=%d: written in this cycle but not modified" % t)
+                applied = dict(prev); applied.update(m)
+                if applied != v:
+                    res.bad.append("tsl t=%d: value %s != previous value %s with the modified children %s replaced" % (t, v, prev, m))
+                if m != written:
+                    res.bad.append("tsl t=%d: modified children %s but children written this cycle are %s" % (t, m, written))
+                if d != m:
+                    res.bad.append("tsl t=%d: delta_value %s differs from modified_items %s" % (t, d, m))
+                if len(m) > 1:
+                    res.feats.add("several-children-modified")
+                if len(m) < len(vals):
+                    res.feats.add("some-children-unmodified"); res.nontrivial = True
+            else:
+                res.feats.add("dump-unmodified-time")
+                if mod or m or d is not None:
+                    res.bad.append("tsl t=%d: nothing happened at this time but modified=%d modified children %s delta %s" % (t, mod, m, f["d"]))
+            continue
+        if o != "bad-op":
+            res.bad.append("unknown op %r answered %r" % (ln, o))
+    return res
+
+
 def _run(stream, case, out):
     try:
         if stream == "tss":
             return _mon_tss(case, out)
+        if stream == "tsl":
+            return _mon_tsl(case, out)
         if stream == "tsw":
             return _mon_tsw(case, out)
         return _mon_tsd(case, out)
@@ -832,6 +948,19 @@ TECHNIQUE = ("Lean 4 proof (slot-store representation invariant + refinement of 
              "mutation histories; ring-buffer refinement to `last min(k,N) pushes`) with differential correspondence "
              "against real TSOutput objects and an independent trace monitor")
 LEVEL_TEXT = ("Kernel-checked theorems over ALL mutation histories of the modelled KeySlotStore / TSSSlotStorage / "
-              "TSDSlotStorage / SizeTSWindowStorage code; the model is tied to the code by running the real "
-              "TSOutput objects on generated histories and comparing every observation.")
-LEVEL_NOTE = ("Trusted: Lean kernel; axioms propext/Classical.choice/Quot.sound; the hand-written model; the harness.")
+              "TSDSlotStorage / SizeTSWindowStorage / fixed-TSL code: slot-store representation invariant, delta bits = "
+              "(value \\ value-at-cycle-start, value-at-cycle-start \\ value) for TSS and for TSD keys (hence all five "
+              "coherence relations, no trace of cancelled mutations, value = fold of all deltas from empty), window = last "
+              "min(k,N) pushes with all_valid <-> size >= min_period and the evicted element, fixed-list modified children = "
+              "children written in the cycle. The model is tied to the code by running real TSOutput objects on generated "
+              "histories and comparing every observation; an independent trace monitor decides the relations on the "
+              "implementation's dumps.")
+LEVEL_NOTE = ("Partial at TSD value level: the full statement `TSDValueDeltaCoherent` is FALSE for the code as it stands "
+              "(kernel-checked counterexample `tsd_value_delta_incoherent`, reproduced on the real TSOutput: a key written, "
+              "erased and written again within one cycle is missing from modified_items()/delta_value); it is proved for all "
+              "clean histories (`tsd_value_delta_clean_partial`). The key_set() projection of a TSD is not coherent when a key "
+              "is created by at() without a value (`tsd_keyset_incoherent`, also reproduced). Both are reported by the monitor "
+              "on the stream `tsd-defects` (messages `tsd-delta:` / `tsd-keyset:`), which is kept apart from the clean streams. "
+              "Trusted: Lean kernel; axioms propext/Classical.choice/Quot.sound; the hand-written model (hash index as first "
+              "constructed slot, bitsets per slot); the correspondence harness. Element types other than Int, nested "
+              "TSD/TSS/TSB values, dynamic TSL, duration windows and child invalidation are not exercised.")
